@@ -30,7 +30,8 @@ pub struct Params {
     /// rewards are governed by the commission itself, whatever these say)
     #[serde(default)]
     pub max_commissions: Vec<(String, String)>,
-    /// validator naming scheme (0: validator0, validator1, ...; 1: validator1, validator10, validator100)
+    /// validator naming scheme (0: validator0, validator1, ...; 1: validator1, validator10, validator100;
+    /// 2: Validator, validator, VALIDATOR, validatoR)
     #[serde(default)]
     pub naming: u8,
     /// the bonded denomination (staking parameter, fixed at setup)
@@ -111,6 +112,10 @@ pub fn validators(p: &Params) -> Vec<String> {
 pub fn validator_name(p: &Params, i: usize) -> String {
     if p.naming == 1 {
         format!("validator1{}", "0".repeat(i))
+    } else if p.naming == 2 {
+        // names that differ in letter case only (validator addresses are opaque strings, each its own validator)
+        let n = i / 4;
+        format!("{}{}", ["Validator", "validator", "VALIDATOR", "validatoR"][i % 4], if n == 0 { String::new() } else { n.to_string() })
     } else {
         format!("validator{}", i)
     }
@@ -1019,7 +1024,7 @@ pub fn gen_params(rng: &mut Rng) -> Params {
     let commissions = (0..n).map(|_| rng.pick(&pool).to_string()).collect();
     let denom = rng.pick(&["TOKEN", "TOKEN", "ustake"]).to_string();
     let max_commissions = (0..n).map(|_| (rng.pick(&["1", "1", "0.2", "0", "0.05"]).to_string(), rng.pick(&["0.01", "0", "1"]).to_string())).collect();
-    let naming = if rng.chance(1, 3) { 1 } else { 0 };
+    let naming = *rng.pick(&[0u8, 0, 0, 1, 1, 2]);
     Params { apr, unbonding, commissions, max_commissions, naming, denom }
 }
 
